@@ -84,7 +84,8 @@ class Check(c01.Check):
         for mode, hs, threads in self.configs():
             res, err = common.run_impl('c20', 'run', {'cases': cases, 'mode': mode, 'threads': threads,
                                                       'thread_cases': 200 if self.tier == 'quick' else 1500,
-                                                      'thread_seconds': 6 if self.tier == 'quick' else 40},
+                                                      'thread_seconds': 6 if self.tier == 'quick' else 40,
+                                                      'delay_cases': 10 if self.tier == 'quick' else 60},
                                        timeout=3000, extra_env={'PYTHONHASHSEED': hs})
             if res is None:
                 self.notes.append(f'{mode}/{hs}: {err}')
@@ -97,6 +98,7 @@ class Check(c01.Check):
             outs.append({'ref': first['first'], 'poison': first.get('poison'),
                          'all': {k: {'first': runs[k][i]['first']['canon'], 'second': runs[k][i]['second'],
                                      'threaded': runs[k][i].get('threaded'),
+                                     'delayed': runs[k][i].get('delayed'),
                                      'residue': runs[k][i]['first'].get('residue'),
                                      'poison_residue': (runs[k][i].get('poison') or {}).get('residue'),
                                      'poison_canon': (runs[k][i].get('poison') or {}).get('canon')}
@@ -137,9 +139,9 @@ class Check(c01.Check):
                         'signature': 'c20:residue-concurrent'}
         ref = io['ref']['canon']
         for k, v in io['all'].items():
-            for which in ('first', 'second', 'threaded'):
+            for which in ('first', 'second', 'threaded', 'delayed'):
                 got = v.get(which)
-                if which == 'threaded' and got is None:
+                if which in ('threaded', 'delayed') and got is None:
                     continue
                 if got in ('NOT-RUN', None) or ref == 'NOT-RUN':
                     continue
